@@ -131,7 +131,9 @@ def gen_steps(rng, obj, n, *, bad_rate=0.0, malformed_rate=0.0, setter_bias=1.0,
                     st["arg"] = {"kind": "point", "d": d, "rel": rel,
                                  "as": rng.choice(["list", "tuple", "array"])}
             elif r < bad_rate:
-                st["arg"] = {"kind": "bad", "bad": rng.choice(["zero", "negative", "nan"]),
+                st["arg"] = {"kind": "bad", "bad": rng.choice(
+                    ["zero", "negative", "nan"] + (["underflow"] if hasattr(obj, "vertices")
+                                                   else [])),
                              "f": rng.uniform(0.5, 2.0)}
             else:
                 f = 10 ** rng.uniform(-factor_decades, factor_decades)
@@ -215,6 +217,9 @@ def resolve_arg(obj, st, world=None):
             return 0.0, cur
         if arg["bad"] == "negative":
             return -base * arg["f"], cur
+        if arg["bad"] == "underflow":
+            # positive, but so small that the scale factor target/current rounds to 0.0
+            return 5e-324, cur
         return float("nan"), cur
     raise KeyError(kind)
 
